@@ -494,6 +494,10 @@ def printed_report(chk, rec, n):
             chk.fail("the failure report has no 'Reproduce with' block", {"body": body})
             continue
         block = message.split("Reproduce with:", 1)[1]
+        # Model_C09.report_block: four spaces in front of the first line of the command, nothing else
+        expected_block = " \n\n    " + case.as_curl_command(headers=dict(response.request.headers), verify=getattr(response, "verify", True))
+        if not block.startswith(expected_block):
+            chk.disagree("printed report block vs Model_C09.report_block (4 spaces + as_curl_command)", {"body": body}, block[:300], expected_block[:300])
         block = block.lstrip("\n ")
         # the block ends at the end of the message; the command's first line carries the report's indentation only
         cmd = block.rstrip("\n")
